@@ -9,14 +9,22 @@
      FlushVis     the block's files are written and updateUnrotatedBlockInfo makes it searchable as part of the
                   open ("unrotated") segment                                             [hook flush.unrotated.visible]
      FlushEnd     .sst / .sfm / pqmr written, buffer reset                                [hook flush.end]
-     RotMeta      (flushes a non-empty buffer first) segmeta.json entry + AddSegMetaToMetadata: the segment is now ALSO
-                  in the rotated metadata                                                [hook rot.metadata.visible]
+     RotTree      (only when the segment carries an agile tree, UseTree = TRUE) the rotation flushes a non-empty buffer and
+                  then writes the tree files (EncodeStarTree).  Queries take the existence of the tree's meta file as
+                  "this segment has a tree" and read it at once; the pinned code created the file under its final name
+                  and filled it afterwards (TreeAtomic = FALSE: the tree is visible while partial); since the "fix:"
+                  commit it is written under a temporary name and renamed when complete (TreeAtomic = TRUE)
+                                                                                         [hook rot.tree.created]
+     RotMeta      (flushes a non-empty buffer first; completes the tree) segmeta.json entry + AddSegMetaToMetadata: the
+                  segment is now ALSO in the rotated metadata                            [hook rot.metadata.visible]
      RotRemove    removeSegKeyFromUnrotatedInfo: no longer in the unrotated info         [hook rot.unrotated.removed]
      RotEnd       segstore reset, next segment                                            [hook rot.end]
    Query (one at a time is enough: queries do not interact):
      QSnapU       list of unrotated segments                                              [hook snap(agg).unrotated]
      QSnapR       list of rotated segments; since the "fix:" commit an unrotated entry whose key is also in the
                   rotated list is dropped (Dedup = TRUE); before it both were searched (Dedup = FALSE) [hook snap(agg).rotated]
+     QTree        group-by queries look, for every listed segment, whether it has an agile tree and read the tree's meta
+                  data (canUseAgileTree before any segment is searched); reading a partial tree is a crash
      QCheck       for the entries taken from the unrotated list the search decides whether the segment is (still)
                   unrotated (IsSegKeyUnrotated in GetSSRsFromQSR)                          [hook search.unrotated]
      QPlan        the per-segment search requests are built.  An entry that QCheck found unrotated is planned from the
@@ -44,12 +52,15 @@ CONSTANTS MaxEvents,   \* total events that may be ingested
           MaxRot,      \* rotations
           Dedup,       \* BOOLEAN: does the query drop unrotated entries that are also listed as rotated
           Recheck,     \* BOOLEAN: does an empty unrotated read of a meanwhile-rotated segment fall back to the rotated metadata
+          UseTree,     \* BOOLEAN: do rotations write an agile tree (group-by columns tracked by the persistent-query machinery)
+          TreeAtomic,  \* BOOLEAN: does the tree become visible only when complete
           ReaderFallback \* BOOLEAN: do column readers whose unrotated lookup fails (segment rotated after their own check) use the rotated metadata
 
 VARIABLES nextId,      \* next event id (events are 1..nextId-1)
           wip,         \* set of event ids in the in-memory block
-          segs,        \* sequence of segments: [ev |-> set of searchable event ids, inU |-> BOOLEAN, inR |-> BOOLEAN]
-          wpc,         \* writer pc: "idle" | "fvis" | "rmeta" | "rrem"
+          segs,        \* sequence of segments: [ev |-> set of searchable event ids, inU |-> BOOLEAN, inR |-> BOOLEAN,
+                       \*                        tree |-> "none" | "partial" | "complete" (what a reader of the tree file finds)]
+          wpc,         \* writer pc: "idle" | "fvis" | "rtree" | "rmeta" | "rrem"
           nflush, nrot,
           qpc,         \* "none" | "snapU" | "snapR" | "checked" | "planned" | "ochecked" | "opened" | "fchecked" | "done"
           snapU, snapR,\* sets of segment indexes
@@ -59,17 +70,18 @@ VARIABLES nextId,      \* next event id (events are 1..nextId-1)
           openU,       \* planned segments whose readers found them unrotated (QOpenCheck) / (QFetchCheck)
           opened,      \* planned segments whose readers could be opened (the others are searched as "matches nothing")
           result,      \* sequence (bag) of event ids returned
-          damaged      \* ids returned without (some of) their columns
-vars == <<nextId, wip, segs, wpc, nflush, nrot, qpc, snapU, snapR, asU, visAtStart, plan, openU, opened, result, damaged>>
-qvars == <<snapU, snapR, asU, visAtStart, plan, openU, opened, result, damaged>>
+          damaged,     \* ids returned without (some of) their columns
+          badTree      \* the query read a tree that was still being written
+vars == <<nextId, wip, segs, wpc, nflush, nrot, qpc, snapU, snapR, asU, visAtStart, plan, openU, opened, result, damaged, badTree>>
+qvars == <<snapU, snapR, asU, visAtStart, plan, openU, opened, result, damaged, badTree>>
 
 Cur == Len(segs)
-NewSeg == [ev |-> {}, inU |-> FALSE, inR |-> FALSE]
+NewSeg == [ev |-> {}, inU |-> FALSE, inR |-> FALSE, tree |-> "none"]
 Searchable == UNION {segs[i].ev : i \in {j \in 1..Len(segs) : segs[j].inU \/ segs[j].inR}}
 
 Init == /\ nextId = 1 /\ wip = {} /\ segs = <<NewSeg>> /\ wpc = "idle" /\ nflush = 0 /\ nrot = 0
         /\ qpc = "none" /\ snapU = {} /\ snapR = {} /\ asU = {} /\ visAtStart = {} /\ result = <<>>
-        /\ plan = <<>> /\ openU = {} /\ opened = {} /\ damaged = {}
+        /\ plan = <<>> /\ openU = {} /\ opened = {} /\ damaged = {} /\ badTree = FALSE
 
 Ingest(n) == /\ wpc = "idle" /\ nextId + n - 1 <= MaxEvents
              /\ wip' = wip \cup (nextId..(nextId + n - 1)) /\ nextId' = nextId + n
@@ -84,9 +96,16 @@ FlushEnd == /\ wpc = "fvis" /\ wpc' = "idle"
             /\ UNCHANGED <<nextId, wip, segs, nflush, nrot, qpc, qvars>>
 
 \* rotation of the current segment (needs at least one block, possibly the one it flushes itself)
-RotMeta == /\ wpc = "idle" /\ nrot < MaxRot /\ (segs[Cur].ev # {} \/ wip # {})
-           /\ segs' = [segs EXCEPT ![Cur] = [ev |-> @.ev \cup wip, inU |-> TRUE, inR |-> TRUE]]
-           /\ wip' = {} /\ wpc' = "rmeta" /\ nrot' = nrot + 1
+RotTree == /\ UseTree /\ wpc = "idle" /\ nrot < MaxRot /\ (segs[Cur].ev # {} \/ wip # {})
+           /\ segs' = [segs EXCEPT ![Cur] = [@ EXCEPT !.ev = @ \cup wip, !.inU = TRUE,
+                                                         !.tree = IF TreeAtomic THEN "none" ELSE "partial"]]
+           /\ wip' = {} /\ wpc' = "rtree" /\ nrot' = nrot + 1
+           /\ UNCHANGED <<nextId, nflush, qpc, qvars>>
+RotMeta == /\ \/ ~UseTree /\ wpc = "idle" /\ nrot < MaxRot /\ (segs[Cur].ev # {} \/ wip # {}) /\ nrot' = nrot + 1
+              \/ UseTree /\ wpc = "rtree" /\ nrot' = nrot
+           /\ segs' = [segs EXCEPT ![Cur] = [ev |-> @.ev \cup wip, inU |-> TRUE, inR |-> TRUE,
+                                             tree |-> IF UseTree THEN "complete" ELSE "none"]]
+           /\ wip' = {} /\ wpc' = "rmeta"
            /\ UNCHANGED <<nextId, nflush, qpc, qvars>>
 RotRemove == /\ wpc = "rmeta"
              /\ segs' = [segs EXCEPT ![Cur] = [@ EXCEPT !.inU = FALSE]]
@@ -99,21 +118,27 @@ QSnapU == /\ qpc = "none"
           /\ snapU' = {i \in 1..Len(segs) : segs[i].inU}
           /\ visAtStart' = Searchable
           /\ qpc' = "snapU"
-          /\ UNCHANGED <<nextId, wip, segs, wpc, nflush, nrot, snapR, asU, plan, openU, opened, result, damaged>>
+          /\ UNCHANGED <<nextId, wip, segs, wpc, nflush, nrot, snapR, asU, plan, openU, opened, result, damaged, badTree>>
 QSnapR == /\ qpc = "snapU"
           /\ snapR' = {i \in 1..Len(segs) : segs[i].inR}
           /\ qpc' = "snapR"
-          /\ UNCHANGED <<nextId, wip, segs, wpc, nflush, nrot, snapU, asU, visAtStart, plan, openU, opened, result, damaged>>
+          /\ UNCHANGED <<nextId, wip, segs, wpc, nflush, nrot, snapU, asU, visAtStart, plan, openU, opened, result, damaged, badTree>>
 
 Range0(sq) == {sq[i] : i \in 1..Len(sq)}
+\* group-by queries read the tree meta data of every listed segment that shows a tree
+QTree == /\ qpc = "snapR"
+         /\ badTree' = \E i \in snapU \cup snapR : segs[i].tree = "partial"
+         /\ qpc' = "tree"
+         /\ UNCHANGED <<nextId, wip, segs, wpc, nflush, nrot, snapU, snapR, asU, visAtStart, plan, openU, opened, result, damaged>>
+
 RECURSIVE Concat(_)
 Concat(ss) == IF ss = <<>> THEN <<>> ELSE Head(ss) \o Concat(Tail(ss))
 SetToSeq(S) == CHOOSE f \in [1..Cardinality(S) -> S] : \A i, j \in 1..Cardinality(S) : i # j => f[i] # f[j]
 UList == IF Dedup THEN snapU \ snapR ELSE snapU
-QCheck == /\ qpc = "snapR"
+QCheck == /\ qpc = "tree"
           /\ asU' = {i \in UList : segs[i].inU}
           /\ qpc' = "checked"
-          /\ UNCHANGED <<nextId, wip, segs, wpc, nflush, nrot, snapU, snapR, visAtStart, plan, openU, opened, result, damaged>>
+          /\ UNCHANGED <<nextId, wip, segs, wpc, nflush, nrot, snapU, snapR, visAtStart, plan, openU, opened, result, damaged, badTree>>
 \* the events of segment i's searchable blocks, now
 SegEvents(i) == SetToSeq(segs[i].ev)
 Req(i) == <<[seg |-> i, ev |-> SegEvents(i)]>>
@@ -127,35 +152,35 @@ QPlan == /\ qpc = "checked"
                 rs == SetToSeq(snapR)
             IN plan' = Concat([k \in 1..Len(us) |-> PlanU(us[k])]) \o Concat([k \in 1..Len(rs) |-> Req(rs[k])])
          /\ qpc' = "planned"
-         /\ UNCHANGED <<nextId, wip, segs, wpc, nflush, nrot, snapU, snapR, asU, visAtStart, openU, opened, result, damaged>>
+         /\ UNCHANGED <<nextId, wip, segs, wpc, nflush, nrot, snapU, snapR, asU, visAtStart, openU, opened, result, damaged, badTree>>
 PlannedSegs == {plan[k].seg : k \in 1..Len(plan)}
 StillU(S) == {i \in S : segs[i].inU}
 \* readers of segment i (which they found unrotated iff i \in chk) can get at its block table
 CanOpen(i, chk) == i \notin chk \/ segs[i].inU \/ ReaderFallback
 QOpenCheck == /\ qpc = "planned"
               /\ openU' = StillU(PlannedSegs) /\ qpc' = "ochecked"
-              /\ UNCHANGED <<nextId, wip, segs, wpc, nflush, nrot, snapU, snapR, asU, visAtStart, plan, opened, result, damaged>>
+              /\ UNCHANGED <<nextId, wip, segs, wpc, nflush, nrot, snapU, snapR, asU, visAtStart, plan, opened, result, damaged, badTree>>
 QOpenGet == /\ qpc = "ochecked"
             /\ opened' = {i \in PlannedSegs : CanOpen(i, openU)} /\ qpc' = "opened"
-            /\ UNCHANGED <<nextId, wip, segs, wpc, nflush, nrot, snapU, snapR, asU, visAtStart, plan, openU, result, damaged>>
+            /\ UNCHANGED <<nextId, wip, segs, wpc, nflush, nrot, snapU, snapR, asU, visAtStart, plan, openU, result, damaged, badTree>>
 QFetchCheck == /\ qpc = "opened"
                /\ openU' = StillU(opened) /\ qpc' = "fchecked"
-               /\ UNCHANGED <<nextId, wip, segs, wpc, nflush, nrot, snapU, snapR, asU, visAtStart, plan, opened, result, damaged>>
+               /\ UNCHANGED <<nextId, wip, segs, wpc, nflush, nrot, snapU, snapR, asU, visAtStart, plan, opened, result, damaged, badTree>>
 \* the two middle steps as one (the harness can park the real query only at the two checks)
 QOpenGetFetchCheck == /\ qpc = "ochecked"
                       /\ opened' = {i \in PlannedSegs : CanOpen(i, openU)}
                       /\ openU' = StillU(opened') /\ qpc' = "fchecked"
-                      /\ UNCHANGED <<nextId, wip, segs, wpc, nflush, nrot, snapU, snapR, asU, visAtStart, plan, result, damaged>>
+                      /\ UNCHANGED <<nextId, wip, segs, wpc, nflush, nrot, snapU, snapR, asU, visAtStart, plan, result, damaged, badTree>>
 Found(k) == IF plan[k].seg \in opened THEN plan[k].ev ELSE <<>>
 QFetchGet == /\ qpc = "fchecked"
              /\ result' = Concat([k \in 1..Len(plan) |-> Found(k)])
              /\ damaged' = UNION {Range0(plan[k].ev) : k \in {n \in 1..Len(plan) : plan[n].seg \in opened /\ ~CanOpen(plan[n].seg, openU)}}
              /\ qpc' = "done"
-             /\ UNCHANGED <<nextId, wip, segs, wpc, nflush, nrot, snapU, snapR, asU, visAtStart, plan, openU, opened>>
+             /\ UNCHANGED <<nextId, wip, segs, wpc, nflush, nrot, snapU, snapR, asU, visAtStart, plan, openU, opened, badTree>>
 
 Next == \/ \E n \in 1..2 : Ingest(n)
-        \/ FlushVis \/ FlushEnd \/ RotMeta \/ RotRemove \/ RotEnd
-        \/ QSnapU \/ QSnapR \/ QCheck \/ QPlan \/ QOpenCheck \/ QOpenGet \/ QFetchCheck \/ QFetchGet
+        \/ FlushVis \/ FlushEnd \/ RotTree \/ RotMeta \/ RotRemove \/ RotEnd
+        \/ QSnapU \/ QSnapR \/ QTree \/ QCheck \/ QPlan \/ QOpenCheck \/ QOpenGet \/ QFetchCheck \/ QFetchGet
 Spec == Init /\ [][Next]_vars
 -----------------------------------------------------------------------------
 Range(s) == {s[i] : i \in 1..Len(s)}
@@ -165,9 +190,11 @@ NoDup == \A i, j \in 1..Len(result) : i # j => result[i] # result[j]
 NoLoss == qpc = "done" => visAtStart \subseteq Range(result)
 \* nothing that was never ingested / never flushed
 NoInvent == Range(result) \subseteq Searchable
+\* a tree is read only when it is complete (reading a partial one ends the process)
+NoPartialTree == ~badTree
 \* every record comes back whole
 NoDamage == damaged = {}
 \* a segment is never in neither list while it has searchable events
 NeverInNeither == \A i \in 1..Len(segs) : segs[i].ev # {} => (segs[i].inU \/ segs[i].inR)
-TypeOK == /\ wpc \in {"idle", "fvis", "rmeta", "rrem"} /\ qpc \in {"none", "snapU", "snapR", "checked", "planned", "ochecked", "opened", "fchecked", "done"}
+TypeOK == /\ wpc \in {"idle", "fvis", "rtree", "rmeta", "rrem"} /\ qpc \in {"none", "snapU", "snapR", "tree", "checked", "planned", "ochecked", "opened", "fchecked", "done"}
 =============================================================================
